@@ -513,6 +513,9 @@ class ExprMixin:
                 return [(st, self.class_const_value(v.cls, attr))]
             raise Refuse(f"attribute {attr!r} of {v!r} not modelled (line {getattr(node, 'lineno', '?')}, {self.cur_key})")
         if isinstance(v, VOpaque):
+            if attr in self.stable_opaque_attrs and not self.method_position.get(id(node)):
+                # attribute of an object that the function under contract never writes: a function of the object
+                return [(st, VOpaque(z3.Function('attr:' + attr, Obj, Obj)(v.t)))]
             if self.method_position.get(id(node)) and attr in self.opaque_methods:
                 return [(st, VFunc(attr, key=('opaque_method',), self_obj=v))]
             return [(st, VOpaque(hint=attr))] + self.maybe_raise(st, 'getattr', node)
